@@ -1,8 +1,14 @@
 (* C20 - cost grows at most linearly with input length: the part a model can carry.
-   The number of iterations of the parser's main loop is bounded by 14*(n+3) for an input of n code
-   points, for every configuration, base and start state (Proofs/Termination.v). Allocation itself
-   (Go runtime, GC, size classes) is measured, not modelled: partial. *)
-From Verif Require Import Lib.Base Model.Cfg Model.Url Model.Machine Proofs.Termination.
+   (1) the number of iterations of the parser's main loop is at most 14*(n+3)-2 for an input of n code points, for every
+       configuration, base and start state (Proofs/Termination.v);
+   (2) the size of everything the parser builds - every component of the resulting URL, the buffer at every reachable
+       state, the serialization - is bounded by a linear function of the input length (and of the base's size), under the
+       explicit premise that the IDNA oracle's output is linear in its input and that user-supplied host functions add at
+       most 7 bytes (Proofs/SizeBound.v); the sum of the buffer lengths over the iterations that look at the buffer as a
+       whole is linear as well.
+   Allocation itself (Go runtime, GC, size classes, strings.Builder growth) is measured, not modelled: partial. *)
+From Verif Require Import Lib.Base Lib.Utf8 Model.Cfg Gen.Options Model.Url Model.Machine Model.Api Proofs.Termination Proofs.SizeBound.
+Local Open Scope Z_scope.
 
 Theorem C20_linear_iterations : forall idna_raw c inp base override fuel st0 u,
   (Z.of_nat (steps idna_raw c inp base override fuel st0 u) <= 14 * (len inp + 3) - 2)%Z.
@@ -13,3 +19,63 @@ Theorem C20_steps_agree_with_run : forall idna_raw c inp base override fuel m,
   fst (run_count idna_raw c inp base override fuel m) = run idna_raw c inp base override fuel m.
 Proof. exact steps_agrees_with_run. Qed.
 Print Assumptions C20_steps_agree_with_run.
+
+(* sizes: usize u = bytes of all components plus one per path segment *)
+Theorem C20_parse_size : forall idna_raw A B,
+  (forall d, len (fst (idna_raw d)) <= A * len d + B) -> forall c, hostfun_ok (c_pre c) -> hostfun_ok (c_post c) ->
+  forall s u, Parse idna_raw c s = PUrl u -> usize u <= 144 * (A + 1) * len s + (276 * (A + 1) + 12 * B + 46).
+Proof. exact Parse_size. Qed.
+Print Assumptions C20_parse_size.
+
+Theorem C20_resolve_size : forall idna_raw A B,
+  (forall d, len (fst (idna_raw d)) <= A * len d + B) -> forall c, hostfun_ok (c_pre c) -> hostfun_ok (c_post c) ->
+  forall b ref u, UrlParse idna_raw c b ref = PUrl u ->
+  usize u <= 144 * (A + 1) * len ref + usize b + (276 * (A + 1) + 12 * B + 46).
+Proof. exact UrlParse_size. Qed.
+Print Assumptions C20_resolve_size.
+
+Theorem C20_parse_ref_size : forall idna_raw A B,
+  (forall d, len (fst (idna_raw d)) <= A * len d + B) -> forall c, hostfun_ok (c_pre c) -> hostfun_ok (c_post c) ->
+  forall raw ref u, ParseRef idna_raw c raw ref = PUrl u ->
+  usize u <= 144 * (A + 1) * (len raw + len ref) + 2 * (276 * (A + 1) + 12 * B + 46).
+Proof. exact ParseRef_size. Qed.
+Print Assumptions C20_parse_ref_size.
+
+(* every run of the basic parser, also with a state override on an existing URL (the setters), however it ends *)
+Theorem C20_basic_parser_size : forall idna_raw A B,
+  (forall d, len (fst (idna_raw d)) <= A * len d + B) -> forall c, hostfun_ok (c_pre c) -> hostfun_ok (c_post c) ->
+  forall s b u0 ov u', left_url (BasicParser idna_raw c s b u0 ov) = Some u' ->
+  usize u' <= obsz u0 + 144 * (A + 1) * len s + (276 * (A + 1) + 12 * B + 46) + obsz b.
+Proof. exact BasicParser_size. Qed.
+Print Assumptions C20_basic_parser_size.
+
+Theorem C20_href_size : forall u ex h, Href u ex = Some h -> len h <= usize u + 8.
+Proof. exact Href_size. Qed.
+Print Assumptions C20_href_size.
+
+Theorem C20_parse_then_serialize_size : forall idna_raw A B c,
+  (forall d, len (fst (idna_raw d)) <= A * len d + B) -> hostfun_ok (c_pre c) -> hostfun_ok (c_post c) ->
+  forall s u h, Parse idna_raw c s = PUrl u -> Href u false = Some h ->
+  len h <= 144 * (A + 1) * len s + (276 * (A + 1) + 12 * B + 54).
+Proof. exact Parse_Href_size. Qed.
+Print Assumptions C20_parse_then_serialize_size.
+
+(* the buffer at every reachable state, and the total of the buffer lengths over the iterations that end the run or empty it *)
+Theorem C20_buffer_bound : forall idna_raw A B, (forall d, len (fst (idna_raw d)) <= A * len d + B) ->
+  forall c, hostfun_ok (c_pre c) -> hostfun_ok (c_post c) -> forall inp base override m,
+  reach idna_raw c inp base override m -> len (m_buf m) <= 12 * (m_ptr m + 1) /\ m_ptr m + 1 <= len inp.
+Proof. exact buf_bound. Qed.
+Print Assumptions C20_buffer_bound.
+
+Theorem C20_scanned_total : forall idna_raw A B, (forall d, len (fst (idna_raw d)) <= A * len d + B) ->
+  forall c, hostfun_ok (c_pre c) -> hostfun_ok (c_post c) -> forall inp base override fuel st0 u,
+  run_scan idna_raw c inp base override fuel (m_init st0 u) <= 12 * (14 * (len inp + 3) - 2).
+Proof. exact scanned_total. Qed.
+Print Assumptions C20_scanned_total.
+
+(* the premises are met: the identity oracle is linear with A = 1, B = 0, and the default configuration's host functions are fine *)
+Example C20_premises_met : (forall d, len (fst (sz_idna d)) <= 1 * len d + 0) /\ hostfun_ok (c_pre default_cfg) /\ hostfun_ok (c_post default_cfg).
+Proof. split; [exact sz_idna_lin|exact default_cfg_hostfuns]. Qed.
+Theorem C20_parse_size_default : forall s u, Parse sz_idna default_cfg s = PUrl u -> usize u <= 288 * len s + 598.
+Proof. exact Parse_size_default. Qed.
+Print Assumptions C20_parse_size_default.
